@@ -11,14 +11,12 @@ package utils
 //@ ghost func civilYearStart(y int, l int) int
 //@ ghost func civilYear(a int, l int) int
 //@ ghost func civilYearDay(a int, l int) int
-//@ ghost func utcLoc() int
-//@ ghost func localLoc() int
 
 //@ func time.Unix
 //@ trusted "stdlib time model"
 //@ pure
 //@ ensures abs(result) == sec*1000000000 + nsec
-//@ ensures loc(result) == localLoc()
+//@ ensures loc(result) == time.Local
 
 //@ func (time.Time).Unix
 //@ trusted "stdlib time model"
@@ -60,7 +58,7 @@ package utils
 //@ trusted "stdlib time model"
 //@ pure
 //@ ensures abs(result) == abs(t)
-//@ ensures loc(result) == utcLoc()
+//@ ensures loc(result) == time.UTC
 
 //@ func (time.Time).Location
 //@ trusted "stdlib time model"
@@ -97,3 +95,29 @@ package utils
 //@ trusted "stdlib: float64 seconds = sec + nsec/1e9 (rounding ignored outside the float model)"
 //@ pure
 //@ ensures result == real(d) / 1000000000.0
+
+// ---- civil calendar (assumptions about package time, used by C30/C08/C31) ----
+// civilYearStart(y, l): abs of 1 January 00:00 of year y in location l; civilYear(a, l): the civil year of
+// instant a in location l. dayNs = 86400e9.
+
+//@ func time.Date
+//@ trusted "stdlib time model: only 1 January 00:00:00.0 is given a meaning"
+//@ pure
+//@ ensures loc(result) == loc
+//@ ensures (month == 1 && day == 1 && hour == 0 && min == 0 && sec == 0 && nsec == 0) ==> abs(result) == civilYearStart(year, loc)
+
+//@ func (time.Time).AddDate
+//@ trusted "stdlib time model: AddDate(0,0,d) moves by d civil days"
+//@ pure
+//@ ensures loc(result) == loc(t)
+//@ ensures (years == 0 && months == 0) ==> abs(result) == civilAddDays(abs(t), loc(t), days)
+
+//@ ghost func civilAddDays(a int, l int, d int) int
+
+//@ axiom #yearBracket: forallint(a, l, pattern(civilYear(a, l)), civilYearStart(civilYear(a, l), l) <= a && a < civilYearStart(civilYear(a, l) + 1, l))
+//@ axiom #yearUnique: forallint(a, l, y, pattern(civilYearStart(y, l), civilYear(a, l)), (civilYearStart(y, l) <= a && a < civilYearStart(y + 1, l)) ==> civilYear(a, l) == y)
+// A-TZ (fixed-offset zone, or a zone whose offset is the same on consecutive 1 Januaries): a year is 365 or 366 days long.
+//@ axiom #yearLen: forallint(y, l, pattern(civilYearStart(y, l)), civilYearStart(y + 1, l) - civilYearStart(y, l) == 365*86400000000000 || civilYearStart(y + 1, l) - civilYearStart(y, l) == 366*86400000000000)
+// A-FIXED (fixed-offset zone): civil days are 86400 s long.
+//@ axiom #yearDay: forallint(a, l, pattern(civilYearDay(a, l)), civilYearDay(a, l) == 1 + div(a - civilYearStart(civilYear(a, l), l), 86400000000000))
+//@ axiom #addDays: forallint(a, l, d, pattern(civilAddDays(a, l, d)), civilAddDays(a, l, d) == a + d*86400000000000)
